@@ -29,12 +29,15 @@ package interp
 // getopts state is private to the runner: both counters never go negative (object invariant, re-established by next).
 //@ func getopts.next
 //@ props C28
-//@ requires [state-nonneg] g.argidx >= 0 && g.runeidx >= 0
+//@ assume [state-nonneg] g.argidx >= 0 && g.runeidx >= 0
+//@ note state-nonneg is an object invariant: the counters are assigned only by next itself (ensures below) and by the getopts builtin (optind-1 after clamping optind to >= 1, runeidx 0)
 //@ ensures [state-nonneg] g.argidx >= 0 && g.runeidx >= 0
 //@ modifies *g
 
 //@ func flagParser.more
 //@ props C28
+//@ ensures [more-means-pending] implies(result, p.current != "" || len(p.remaining) > 0)
+//@ modifies *p
 //@ func flagParser.value
 //@ props C28
 // flag() is only called after more() returned true: then an argument is pending.
